@@ -83,4 +83,6 @@ IndInit == /\ n \in 1 .. MaxN
            /\ slot \in [Slots -> Logicals \cup {Free}]
            /\ reg \in [Slots -> [active : BOOLEAN, dir : 0 .. 2, logical : Logicals \cup {Free}]]
            /\ IndInv
+(* expected to be VIOLATED from IndInit: the induction hypothesis is not vacuous *)
+Witness == ~(n = 5 /\ Cardinality(Live) = 3)
 =============================================================================
